@@ -86,3 +86,65 @@ fn deprecation_header_line() {
         k += 1;
     }
 }
+
+fn any_version() -> crate::common::Version {
+    let k: u8 = kani::any();
+    kani::assume((k as usize) < std::mem::variant_count::<crate::common::Version>());
+    // SAFETY: field-less enum of size 1 with default discriminants
+    unsafe { std::mem::transmute::<u8, crate::common::Version>(k) }
+}
+
+fn any_status() -> super::StatusCode {
+    let k: u8 = kani::any();
+    kani::assume((k as usize) < std::mem::variant_count::<super::StatusCode>());
+    // SAFETY: as above
+    unsafe { std::mem::transmute::<u8, super::StatusCode>(k) }
+}
+
+// C05: the status line is `VERSION SP CODE SP CRLF` for every version x status code (complete: finite domain)
+#[kani::proof]
+#[kani::unwind(20)]
+fn status_line_bytes() {
+    let v = any_version();
+    let s = any_status();
+    let line = super::StatusLine::new(v, s);
+    let mut out: Vec<u8> = Vec::new();
+    assert!(line.write_all(&mut out).is_ok());
+    let vr = v.raw();
+    let sr = s.raw();
+    assert!(out.len() == vr.len() + 1 + 3 + 3);
+    let mut k = 0;
+    while k < vr.len() {
+        assert!(out[k] == vr[k]);
+        k += 1;
+    }
+    let n = vr.len();
+    assert!(out[n] == b' ' && out[n + 1] == sr[0] && out[n + 2] == sr[1] && out[n + 3] == sr[2]);
+    assert!(out[n + 4] == b' ' && out[n + 5] == b'\r' && out[n + 6] == b'\n');
+}
+
+// C05: write_body writes exactly the body bytes, nothing for a response without body -- bodies of <= 4 bytes (BOUNDED)
+#[kani::proof]
+#[kani::unwind(8)]
+fn write_body_bytes() {
+    let bytes: [u8; 4] = kani::any();
+    let n: usize = kani::any();
+    kani::assume(n <= 4);
+    let has: bool = kani::any();
+    let mut r = super::Response::new(crate::common::Version::Http11, super::StatusCode::OK);
+    if has {
+        r.set_body(crate::common::Body::new(bytes[..n].to_vec()));
+    }
+    let mut out: Vec<u8> = Vec::new();
+    assert!(r.write_body(&mut out).is_ok());
+    if has {
+        assert!(out.len() == n);
+        let mut k = 0;
+        while k < n {
+            assert!(out[k] == bytes[k]);
+            k += 1;
+        }
+    } else {
+        assert!(out.is_empty());
+    }
+}
